@@ -220,17 +220,37 @@ example : ∃ n, parseFloatSyntax cIltc {} false [45,95,49,95,50,46,95,53,95,101
 def cItc : Cfg := cfgOf 0xfc7           -- I+T+C without L   (sep_itc; RUST / SWIFT / OCAML literal formats)
 def cIlc : Cfg := cfgOf 0xe3f           -- I+L+C without T   (sep_ilc)
 
-/-- negation witness, class I+T+C (no L): `1._1234567890123456789` is accepted with mantissa 5712345678901234567,
+/-- the result is a number with this count and mantissa -/
+def numIsM (r : Except Err Parsed) (cnt mant : Nat) : Bool :=
+  match r with
+  | .ok (.number n c) => c == cnt && n.mantissa == mant
+  | _ => false
+
+theorem numIsM_elim {r : Except Err Parsed} {cnt mant : Nat} (h : numIsM r cnt mant = true) :
+    ∃ n, r = .ok (.number n cnt) ∧ n.mantissa = mant := by
+  unfold numIsM at h
+  split at h
+  · next n c =>
+    simp only [Bool.and_eq_true, beq_iff_eq] at h
+    exact ⟨n, by rw [h.1], h.2⟩
+  · cases h
+
+/-- negation witness, class I+T+C (no L), for the code as it is (`Fix.itc = false`; void under the proposed repair
+`fixes/C13-sep-itc-accepts-leading.diff`): `1._1234567890123456789` is accepted with mantissa 5712345678901234567,
 the stripped `1.1234567890123456789` with 1123456789012345678 (the stored slice is re-scanned from `prev = None`) -/
 theorem strip_witness_itc :
-    (∃ n, parseFloatSyntax cItc {} false [49,46,95,49,50,51,52,53,54,55,56,57,48,49,50,51,52,53,54,55,56,57] = .ok (.number n 22) ∧
-      n.mantissa = 5712345678901234567) ∧
-    (∃ n, parseFloatSyntax cItc {} false [49,46,49,50,51,52,53,54,55,56,57,48,49,50,51,52,53,54,55,56,57] = .ok (.number n 21) ∧
-      n.mantissa = 1123456789012345678) := ⟨⟨_, rfl, rfl⟩, ⟨_, rfl, rfl⟩⟩
+    Fix.itc = true ∨
+    (numIsM (parseFloatSyntax cItc {} false [49,46,95,49,50,51,52,53,54,55,56,57,48,49,50,51,52,53,54,55,56,57]) 22
+      5712345678901234567 = true ∧
+     numIsM (parseFloatSyntax cItc {} false [49,46,49,50,51,52,53,54,55,56,57,48,49,50,51,52,53,54,55,56,57]) 21
+      1123456789012345678 = true) := by decide
 
-theorem strip_preserves_full_false : ¬ strip_preserves_full := by
+theorem strip_preserves_full_false (hcur : Fix.itc = false) : ¬ strip_preserves_full := by
   intro h
-  obtain ⟨⟨n, hn, hm⟩, ⟨n2, hn2, hm2⟩⟩ := strip_witness_itc
+  rcases strip_witness_itc with hf | ⟨w1, w2⟩
+  · rw [hcur] at hf; cases hf
+  obtain ⟨n, hn, hm⟩ := numIsM_elim w1
+  obtain ⟨n2, hn2, hm2⟩ := numIsM_elim w2
   obtain ⟨n', h1, h2, _⟩ := h cItc rfl (by intro k; cases k <;> decide) {} _ n 22 hn
   have hs : nonSep cItc [49,46,95,49,50,51,52,53,54,55,56,57,48,49,50,51,52,53,54,55,56,57]
       = [49,46,49,50,51,52,53,54,55,56,57,48,49,50,51,52,53,54,55,56,57] := by decide
@@ -267,14 +287,32 @@ example : NoSepBeforeSign cIltc [45,95,49,95,50,46,95,53,95,101,43,95,49,95,48,9
 
 /-! ### separators accepted where the flags do not allow them (R2; reproduce on the implementation) -/
 
-/-- I+T+C, leading not enabled: `+_1`, `1._5` are accepted -/
-theorem position_witness_itc :
-    (∃ n, parseFloatSyntax cItc {} false [43,95,49] = .ok (.number n 3)) ∧
-    (∃ n, parseFloatSyntax cItc {} false [49,46,95,53] = .ok (.number n 4)) := ⟨⟨_, rfl⟩, ⟨_, rfl⟩⟩
+/-- the parser accepts the input as a number -/
+def acceptsNum (r : Except Err Parsed) : Bool :=
+  match r with
+  | .ok (.number _ _) => true
+  | _ => false
 
-/-- I+L+C, trailing not enabled: `1_`, `1.5_` are accepted -/
+/-- I+T+C, leading not enabled: `+_1`, `1._5` are accepted by the code as it is (rejected under the repair `Fix.itc`:
+`position_fixed_itc`) -/
+theorem position_witness_itc :
+    Fix.itc = true ∨ (acceptsNum (parseFloatSyntax cItc {} false [43,95,49]) = true ∧
+      acceptsNum (parseFloatSyntax cItc {} false [49,46,95,53]) = true) := by decide
+
+theorem position_fixed_itc :
+    Fix.itc = false ∨ (acceptsNum (parseFloatSyntax cItc {} false [43,95,49]) = false ∧
+      acceptsNum (parseFloatSyntax cItc {} false [49,46,95,53]) = false ∧
+      acceptsNum (parseFloatSyntax cItc {} false [49,95,50,46,53,95]) = true) := by decide
+
+/-- I+L+C, trailing not enabled: `1_`, `1.5_` are accepted by the code as it is (rejected under the repair `Fix.ilc`,
+fixes/C13-sep-ilc-accepts-trailing.diff: `position_fixed_ilc`) -/
 theorem position_witness_ilc :
-    (∃ n, parseFloatSyntax cIlc {} false [49,95] = .ok (.number n 2)) ∧
-    (∃ n, parseFloatSyntax cIlc {} false [49,46,53,95] = .ok (.number n 4)) := ⟨⟨_, rfl⟩, ⟨_, rfl⟩⟩
+    Fix.ilc = true ∨ (acceptsNum (parseFloatSyntax cIlc {} false [49,95]) = true ∧
+      acceptsNum (parseFloatSyntax cIlc {} false [49,46,53,95]) = true) := by decide
+
+theorem position_fixed_ilc :
+    Fix.ilc = false ∨ (acceptsNum (parseFloatSyntax cIlc {} false [49,95]) = false ∧
+      acceptsNum (parseFloatSyntax cIlc {} false [49,46,53,95]) = false ∧
+      acceptsNum (parseFloatSyntax cIlc {} false [95,49,95,50,46,95,53]) = true) := by decide
 
 end LexVerif.Props.C13
